@@ -109,6 +109,7 @@ def gen_small(rng, prop, job):
 
 def make_jobs(prop, tier, seed):
     jobs = plug.std_jobs(prop, tier, seed, "m3", n_quick=16, per_quick=8, schedules=6)
+    jobs.extend(plug.line_jobs(prop, tier, seed))
     if tier == "thorough":
         for j in range(16):
             jobs.append({"kind": "pbound", "prop": prop, "seed": seed * 104729 + j, "k": 2, "budget": 2000})
